@@ -1,5 +1,5 @@
 """C03 - errors are reported iff the call failed; results are finite (inline contract monitor)."""
-from .. import sweeprun, common, failrun
+from .. import sweeprun, common, failrun, build
 
 KINDS = {'zero-without-error', 'nonfinite-without-error', 'error-with-value', 'slot-dependent-result',
          'error-set-twice', 'stderr-output', 'bad-error-code', 'empty-message', 'unprintable-message',
@@ -21,14 +21,19 @@ def main(tier):
         results.append(sweeprun.run(cfg, 'plain', budget // 3, env={'XV_FPTRAP': '1'}))
     # ... and on the library exactly as the project's own build system makes it (meson: its flags, its options), not the monitor's build
     for cfg in ('shipped', 'kissel'):
-        results.append(sweeprun.run(cfg, 'meson', budget // 3))
+        results.append(sweeprun.run(cfg, 'meson', budget // 3, env={'LD_PRELOAD': build.hostile_host(cfg)['so']}))   # inside a host that defines the library's internal names itself
     viol, paths, fns, tot = sweeprun.merge(results)
     for res in results:
         for c in res['crashes']:
             if c['kind'] == 'exit-report' or (c['fn'] == 'done'):
                 continue   # exit-time leak reports belong to C04
-            ck.violation('crash:%s:%s%s' % (c['kind'], c['fn'], ':with-fp-traps' if res.get('env') else ''),
-                         'call neither returned a value nor reported an error (process died)' + (' in a host that traps floating-point exceptions' if res.get('env') else ''),
+            fpt = 'XV_FPTRAP' in res.get('env', {})
+            if c['kind'] == 'exit:97' and 'LD_PRELOAD' in res.get('env', {}):
+                ck.violation('c03:internal-symbol-pre-empted-by-the-host-program:%s' % c['fn'], 'in the library as meson builds it, a call of %s ran a function of the HOST program that merely has the '
+                             'name of a library internal (rc 97 from the hostile-host preload)' % c['fn'], dict(witness=c['witness'], config=res['config'], flavour=res['flavour']))
+                continue
+            ck.violation('crash:%s:%s%s' % (c['kind'], c['fn'], ':with-fp-traps' if fpt else ''),
+                         'call neither returned a value nor reported an error (process died)' + (' in a host that traps floating-point exceptions' if fpt else ''),
                          dict(witness=c['witness'], config=res['config'], flavour=res['flavour'],
                               reports=[r['kind'] + ' in ' + r['func'] for r in c.get('reports', [])]))
     for (fn, kind, msg), v in viol.items():
@@ -44,18 +49,20 @@ def main(tier):
     # what the shared library exports is what a host program can call - and what its own symbols can pre-empt: every exported function is
     # either declared in a public header (and therefore swept above) or one of the helper entry points the bindings are known to use
     import json, subprocess, os
-    from .. import build
     lib_ = build.lib('shipped', 'plain')
     decl = {x['name'] for x in json.load(open(os.path.join(build.sigtab(), 'sigtab.json')))['declared']}
-    helpers = {'Crystal_F_H_StructureFactor2', 'Crystal_F_H_StructureFactor_Partial2', 'Refractive_Index2', 'xrl_error_new', 'xrl_error_new_literal',
-               'xrl_error_new_valist', 'xrl_set_error', 'xrl_set_error_literal', 'xrl_verif_hook'}
+    helpers = set(build.PUBLIC_HELPERS)
     exported = [l.split()[-1] for l in subprocess.run(['nm', '-D', '--defined-only', lib_['so']], stdout=subprocess.PIPE).stdout.decode().split('\n') if l.strip()]
     if len(exported) < 150:
         raise common.Inconclusive('could not read the dynamic symbol table of the plain build (%d symbols)' % len(exported))
-    for sym in exported:
-        if sym not in decl and sym not in helpers:
-            ck.violation('c03:exported-symbol-without-public-declaration:%s' % sym, 'the library exports %s, which no public header declares: internal calls to it go through the PLT and bind to a '
-                         'same-named function of the host program' % sym, dict(symbol=sym, exported=len(exported), declared=len(decl)))
+    exported_m = [l.split()[-1].split('@')[0] for l in subprocess.run(['nm', '-D', '--defined-only', build.meson_lib('shipped')['so']], stdout=subprocess.PIPE).stdout.decode().split('\n') if l.strip()]
+    if len(exported_m) < 150:
+        raise common.Inconclusive('could not read the dynamic symbol table of the meson build (%d symbols)' % len(exported_m))
+    for which, syms in (('monitor', exported), ('meson', exported_m)):
+        for sym in syms:
+            if sym not in decl and sym not in helpers:
+                ck.violation('c03:exported-symbol-without-public-declaration:%s' % sym, 'the library (%s build) exports %s, which no public header declares: internal calls to it go through the PLT and bind to a '
+                             'same-named function of the host program' % (which, sym), dict(symbol=sym, build=which, exported=len(syms), declared=len(decl)))
     # allocation failpoints: a call that notices a failed allocation (returns its failure sentinel) must store an error like any other failure
     fr = failrun.run('shipped')
     failrun.report(ck, fr, 'C03')
@@ -69,7 +76,7 @@ def main(tier):
                     'distinct = (function, error code, normalised message) return paths driven + functions with a success path driven',
                samples=samples, functions=len(fns), functions_with_success=ok_fns, error_paths=len(paths),
                successful_calls=tot['ok'], failing_calls=tot['err'], budget_per_function=budget,
-               configs=['shipped', 'kissel'], flavours=flavours, allocation_failpoints=fr['summary'], exported_symbols=len(exported), root_of_Fi_probe=rp.get('root_probe'),
+               configs=['shipped', 'kissel'], flavours=flavours, allocation_failpoints=fr['summary'], exported_symbols=len(exported), exported_symbols_of_the_meson_build=len(exported_m), internal_names_defined_by_the_hostile_host={k: len(v) for k, v in build.hostile_host('shipped')['names'].items()}, root_of_Fi_probe=rp.get('root_probe'),
                per_function={k: v for k, v in sorted(fns.items())})
     return ck.finish(cov, ['inline monitor in harness/mon_sweep.c; result classes (POSITIVE/NONNEG/ANY) from xv/sigtab.py',
                            'gcc, glibc'])
